@@ -322,7 +322,7 @@ func reference(c Case) []*expSeries {
 				m[k] = &expSeries{lset: ls, chunks: map[string]bool{}}
 			}
 			for _, id := range e.C {
-				m[k].chunks[chunkIdentity(mkChunk(id))] = true
+				m[k].chunks[identityOfID(id)] = true
 			}
 		}
 	}
@@ -348,9 +348,10 @@ func runProxy(c Case, cfg Config) (*collectServer, error) {
 	p := store.NewProxyStore(nil, nil, func() []store.Client { return clients }, component.Query, labels.EmptyLabels(),
 		0*time.Second, strategy, store.WithLazyRetrievalMaxBufferedResponsesForProxy(cfg.Buf))
 	req := &storepb.SeriesRequest{
-		MinTime:           -1 << 63,
-		MaxTime:           1<<63 - 1,
-		Matchers:          []storepb.LabelMatcher{{Type: storepb.LabelMatcher_RE, Name: "x", Value: ".+"}},
+		MinTime: -1 << 63,
+		MaxTime: 1<<63 - 1,
+		// x!="" selects every series of the universe (a regexp matcher would be compiled anew in every call).
+		Matchers:          []storepb.LabelMatcher{{Type: storepb.LabelMatcher_NEQ, Name: "x", Value: ""}},
 		ResponseBatchSize: int64(cfg.Batch),
 	}
 	req.WithoutReplicaLabels = c.replicaNames()
